@@ -86,6 +86,15 @@ Proof.
   - destruct F as [F|[F|[F|F]]]; rewrite F; reflexivity.
 Qed.
 
+Lemma node_there_named f fields : node_there f fields = true -> field_named (f_name f) fields = true.
+Proof.
+  unfold node_there, field_named. intros H. apply andb_true_iff in H as [_ H].
+  destruct (find (fun r => f_name r =? f_name f) fields) as [rf|] eqn:E; [|discriminate].
+  apply find_some in E as [Hin Hn]. apply existsb_exists. exists rf. split; assumption.
+Qed.
+Lemma node_there_shape f fields : node_there f fields = true -> is_node_field f = true.
+Proof. unfold node_there. intros H. apply andb_true_iff in H. apply H. Qed.
+
 (* the same root field declared twice *)
 Lemma root_fields_overlap acc_fields : forall fields f,
   In f acc_fields -> is_builtin (f_name f) = false -> is_node_field f = false ->
@@ -93,9 +102,9 @@ Lemma root_fields_overlap acc_fields : forall fields f,
 Proof.
   induction acc_fields as [|g t IH]; intros fields f Hin Hb Hn Hf; [contradiction|]. cbn [root_fields].
   destruct Hin as [->|Hin].
-  - rewrite Hb, Hn. cbn [andb]. now rewrite Hf.
+  - rewrite Hb. unfold node_there. rewrite Hn. cbn [andb]. now rewrite Hf.
   - destruct (is_builtin (f_name g)); [eapply IH; eauto|].
-    destruct (is_node_field g && field_named (f_name g) fields); [eapply IH; eauto|].
+    destruct (node_there g fields); [eapply IH; eauto|].
     destruct (field_named (f_name g) fields); [reflexivity|].
     eapply IH; eauto. unfold field_named in *. rewrite existsb_app, Hf. reflexivity.
 Qed.
@@ -140,12 +149,13 @@ Lemma mcf_node_overlap a b f :
   implements_node a = true -> d_name a <> "Query" ->
   In f (d_fields b) -> is_builtin (f_name f) = false -> is_id_field f = false ->
   field_named (f_name f) (d_fields a) = true ->
-  mcf a b = inl EOverlapNode.
+  mcf a b = inl EOverlapNode \/ mcf a b = inl ESignature.
 Proof.
   intros Hn Hq Hin Hb Hid Hf. unfold mcf.
   assert (E : filter (fun g => negb ((d_name a =? "Query") && is_node_field g)) (d_fields a) = d_fields a).
   { rewrite (proj2 (String.eqb_neq _ _) Hq). cbn. clear. induction (d_fields a); cbn; congruence. }
   rewrite E.
+  destruct (sig_clash _ _); [right; reflexivity|left].
   destruct (overlap_scan (filter (fun g => negb (is_builtin (f_name g))) (d_fields b)) (d_fields a) []) as [result flags] eqn:S.
   assert (Hs : existsb (fun x => x) flags = true).
   { change flags with (snd (result, flags)). rewrite <- S. apply (scan_some_overlap _ _ f); auto.
@@ -159,11 +169,69 @@ Lemma conflict_node_field va nvb f :
   implements_node nvb = true -> implements_node va = true ->
   In f (d_fields va) -> is_builtin (f_name f) = false -> is_id_field f = false ->
   field_named (f_name f) (d_fields nvb) = true ->
-  merge_def va nvb = Fail EOverlapNode.
+  merge_def va nvb = Fail EOverlapNode \/ merge_def va nvb = Fail ESignature.
 Proof.
   intros Hn Hr Hq K1 K2 N1 N2 Hin Hb Hid Hf. unfold merge_def.
   rewrite (proj2 (String.eqb_neq _ _) Hn), K1, K2. cbn [kind_eqb negb]. rewrite N1, N2. cbn [Bool.eqb negb].
-  rewrite Hr. unfold merge_custom. now rewrite (mcf_node_overlap nvb va f N1 Hq Hin Hb Hid Hf).
+  rewrite Hr. unfold merge_custom.
+  destruct (mcf_node_overlap nvb va f N1 Hq Hin Hb Hid Hf) as [E|E]; rewrite E; [left|right]; reflexivity.
+Qed.
+
+(* a shared field with another type or other arguments (since the fix of C03/C05-field-signature) *)
+Lemma find_app_some {A} (p : A -> bool) (l l' : list A) x : find p l = Some x -> find p (l ++ l') = Some x.
+Proof. induction l as [|y t IH]; cbn; [discriminate|]. destruct (p y); [auto|exact IH]. Qed.
+Lemma sig_clash_true : forall mf result g rf,
+  In g mf -> find (fun r => f_name r =? f_name g) result = Some rf -> same_sig rf g = false -> sig_clash mf result = true.
+Proof.
+  induction mf as [|h t IH]; intros result g rf Hin Hf Hs; [contradiction|]. cbn [sig_clash].
+  destruct Hin as [->|Hin]; [rewrite Hf, Hs; reflexivity|].
+  apply orb_true_iff. right. destruct (is_id_field h); [eapply IH; eauto|].
+  eapply IH; [exact Hin|apply find_app_some; exact Hf|exact Hs].
+Qed.
+Lemma mcf_signature a b g rf :
+  d_name a <> "Query" -> In g (d_fields b) -> is_builtin (f_name g) = false ->
+  find (fun r => f_name r =? f_name g) (d_fields a) = Some rf -> same_sig rf g = false ->
+  mcf a b = inl ESignature.
+Proof.
+  intros Hq Hin Hb Hf Hs. unfold mcf.
+  assert (E : filter (fun h => negb ((d_name a =? "Query") && is_node_field h)) (d_fields a) = d_fields a).
+  { rewrite (proj2 (String.eqb_neq _ _) Hq). cbn. clear. induction (d_fields a); cbn; congruence. }
+  rewrite E. rewrite (sig_clash_true _ _ g rf); [reflexivity| |exact Hf|exact Hs].
+  apply filter_In. split; [exact Hin|]. now rewrite Hb.
+Qed.
+Lemma conflict_signature va nvb g rf :
+  d_name nvb <> "Node" -> is_root (d_name nvb) = false -> d_kind nvb = d_kind va -> fielded (d_kind nvb) ->
+  implements_node nvb = implements_node va ->
+  In g (d_fields va) -> is_builtin (f_name g) = false ->
+  find (fun r => f_name r =? f_name g) (d_fields nvb) = Some rf -> same_sig rf g = false ->
+  merge_def va nvb = Fail ESignature.
+Proof.
+  intros Hn Hr K F Hi Hin Hb Hf Hs. unfold merge_def. rewrite (proj2 (String.eqb_neq _ _) Hn), <- K.
+  assert (kind_eqb (d_kind nvb) (d_kind nvb) = true) as -> by now apply kind_eqb_eq.
+  cbn [negb]. rewrite Hi, Bool.eqb_reflx. cbn [negb]. rewrite Hr.
+  assert (Hq : d_name nvb <> "Query").
+  { intros E. unfold is_root in Hr. rewrite E in Hr. cbn in Hr. discriminate. }
+  unfold merge_custom. rewrite (mcf_signature nvb va g rf Hq Hin Hb Hf Hs).
+  destruct F as [F|[F|[F|F]]]; rewrite F; reflexivity.
+Qed.
+(* two services: whatever else the schemas contain, the set is rejected *)
+Theorem signature_conflict_rejected2 uA A uB B dA dB f g :
+  In dB B -> find_def (d_name dB) A = Some dA -> is_builtin (d_name dB) = false ->
+  d_name dB <> "Node" -> is_root (d_name dB) = false -> fielded (d_kind dB) ->
+  In g (d_fields dA) -> is_builtin (f_name g) = false ->
+  find (fun r => f_name r =? f_name g) (d_fields dB) = Some f -> same_sig f g = false ->
+  exists es, merge [(uA, A); (uB, B)] = MErr es.
+Proof.
+  intros HB HA Hb Hn Hr F Hg Hbg Hf Hs.
+  assert (Hfail : exists e, merge_def dA dB = Fail e).
+  { destruct (kind_eqb (d_kind dB) (d_kind dA)) eqn:K.
+    - apply kind_eqb_eq in K. destruct (Bool.eqb (implements_node dB) (implements_node dA)) eqn:I.
+      + apply Bool.eqb_prop in I. eexists. eapply conflict_signature; eauto.
+      + eexists. apply conflict_node; auto. intros E. rewrite E, Bool.eqb_reflx in I. discriminate.
+    - eexists. apply conflict_kind; [exact Hn|]. intros E. rewrite E in K.
+      assert (kind_eqb (d_kind dA) (d_kind dA) = true) by now apply kind_eqb_eq. congruence. }
+  destruct Hfail as (e & He).
+  destruct (conflict_rejected2 uA A uB B dB dA e HB Hb HA He) as (es & Hm & _). exists es. exact Hm.
 Qed.
 
 (* a shared plain type that is neither identical nor disjoint *)
@@ -194,6 +262,7 @@ Proof.
   assert (E : filter (fun h => negb ((d_name a =? "Query") && is_node_field h)) (d_fields a) = d_fields a).
   { rewrite (proj2 (String.eqb_neq _ _) Hq). cbn. clear. induction (d_fields a); cbn; congruence. }
   rewrite E.
+  destruct (sig_clash _ _); [eexists; reflexivity|].
   destruct (overlap_scan (filter (fun h => negb (is_builtin (f_name h))) (d_fields b)) (d_fields a) []) as [result flags] eqn:S.
   assert (Hs : existsb (fun x => x) flags = true).
   { change flags with (snd (result, flags)). rewrite <- S. apply (scan_some_overlap _ _ f); auto.
@@ -378,7 +447,7 @@ Proof.
   induction acc_fields as [|g t IH]; intros fields fs H fld Hin; cbn [root_fields] in H.
   - inversion H; subst. now left.
   - destruct (is_builtin (f_name g)); [destruct (IH _ _ H fld Hin); [now left|right; now right]|].
-    destruct (is_node_field g && field_named (f_name g) fields); [destruct (IH _ _ H fld Hin); [now left|right; now right]|].
+    destruct (node_there g fields); [destruct (IH _ _ H fld Hin); [now left|right; now right]|].
     destruct (field_named (f_name g) fields); [discriminate|].
     destruct (IH _ _ H fld Hin) as [Hf|Hf]; [|right; now right].
     apply in_app_or in Hf as [Hf|[->|[]]]; [now left|right; now left].
@@ -397,6 +466,7 @@ Qed.
 Lemma mcf_sub a b fs : mcf a b = inr fs -> forall fld, In fld fs -> In fld (d_fields a) \/ In fld (d_fields b).
 Proof.
   unfold mcf. intros H fld Hin.
+  destruct (sig_clash _ _); [discriminate|].
   destruct (overlap_scan _ _ []) as [result flags] eqn:S.
   destruct (implements_node a && existsb (fun x => x) flags); [discriminate|].
   destruct (existsb (fun x => x) flags && negb (forallb (fun x => x) flags)); [discriminate|].
